@@ -227,6 +227,11 @@ def gen_cases(ctx):
             add(beam, "Beam", "line", sel, kinds=("const", "poly", "nodal") if len(ul) > 1 or ul == ["y"] else ("poly",), unknowns=ul)
     for ul in (lists3 if not quick else rng.sample(lists3, 4)):
         add(beam3, "Beam", "line", rng.choice([allb, partb]), kinds=("const", "poly"), unknowns=ul)
+    # INCLINED Euler-Bernoulli beams (3-4-5 direction and vertical): line loads given in GLOBAL components
+    for end in ([1.2, 1.6, 0], [0, 2, 0]):
+        bi = {"kind": "beam", "elemType": "SEG2", "L": 2, "ms": 0.5, "beamDim": 2, "end": end}
+        for ul in (["y"], ["x"], ["x", "y"]):
+            add(bi, "Beam", "line", {"type": "all"}, kinds=("const", "poly"), unknowns=ul, inclined_beam=True)
     # pressure on CLOSED, non-planar boundaries: the resultant must be what the nodal-normal model predicts
     # (p * t * sum_j a_j nhat_j), which is NOT zero in general (C09_pressure_closed_surface_refuted)
     for pts, ms in (([(0, 0), (4, 0), (4, 3)], 10.0), ([(0, 0), (4, 0), (4, 3)], 1.5), ([(0, 0), (4, 0), (4, 1), (1, 1), (1, 3), (0, 3)], 2.0)):
@@ -541,6 +546,64 @@ def judge_closed_pressure(ctx, c, r, seen):
                           % (len(c["mesh"]["points"]), R, [k * p for p in pred]), {"case": c, "resultant": R, "model": [k * p for p in pred]}, found_input=False)
 
 
+REPLAY_INCLINED = r'''
+import sys
+import numpy as np
+from corr.C09_loads import run_case
+case = %(case)r
+exp = %(expected)r
+res = run_case(case)
+if "error" in res:
+    print("implementation raised:", res["error"]); sys.exit(1)
+coords = np.array([[float.fromhex(v) for v in row] for row in res["coords"]]); Fv = np.array(res["F"]); unk = res["all_unknowns"]
+R = [Fv[:, unk.index(u)].sum() for u in ("x", "y")]
+c = np.array(exp["center"])
+Mz = ((coords[:, 0] - c[0]) * Fv[:, unk.index("y")] - (coords[:, 1] - c[1]) * Fv[:, unk.index("x")]).sum() + Fv[:, unk.index("rz")].sum()
+print("beam from (0,0) to", case["mesh"]["end"][:2], "line load on", case["unknowns"], ": global resultant", R, "expected", exp["R"], "; z-moment about", exp["center"][:2], "=", Mz, "expected", exp["Mz"])
+tol = 1e-10 * exp["scale"]
+sys.exit(1 if abs(R[0] - exp["R"][0]) > tol or abs(R[1] - exp["R"][1]) > tol or abs(Mz - exp["Mz"]) > tol * exp["lever"] else 0)
+'''
+
+
+def judge_inclined_beam(ctx, c, r, seen):
+    """Euler-Bernoulli beam along an inclined line, line load given by GLOBAL components: the global force resultant is
+    the integral of the density over the line, the z-moment (nodal moments included) the moment of the density."""
+    coords = [[F(float.fromhex(v)) for v in row] for row in r["coords"]]
+    cf = [[float(x) for x in row] for row in coords]
+    seg = next(g for g in r["groups"] if g["dim"] == 1)
+    center = [F(ctx.rng.randint(-8, 8), 4), F(ctx.rng.randint(-8, 8), 4), F(0)]
+    Rex = {"x": F(0), "y": F(0)}
+    Mz = F(0)
+    meas = F(0)
+    for u, v in zip(c["unknowns"], c["values"]):
+        p = poly_of(v)
+        for e in seg["excl"]:
+            Xe = [coords[n] for n in seg["connect"][e]]
+            Rex[u] += X.integral(p, seg["type"], Xe)
+            lev = X.times_coord(p, 0 if u == "y" else 1, center[0 if u == "y" else 1])
+            Mz += (1 if u == "y" else -1) * X.integral(lev, seg["type"], Xe)
+    for e in seg["excl"]:
+        meas += X.measure(seg["type"], [coords[n] for n in seg["connect"][e]])
+    unk = r["all_unknowns"]
+    Fv = r["F"]
+    R = [sum(row[unk.index(u)] for row in Fv) for u in ("x", "y")]
+    cc = [float(x) for x in center]
+    Mzi = sum((cf[n][0] - cc[0]) * Fv[n][unk.index("y")] - (cf[n][1] - cc[1]) * Fv[n][unk.index("x")] + Fv[n][unk.index("rz")] for n in range(len(Fv)))
+    cmax = max([abs(float(x)) for v in c["values"] for x in poly_of(v).values()] + [1.0])
+    scale = float(meas) * cmax * 8.0
+    lever = max(abs(cf[n][a] - cc[a]) for n in range(len(cf)) for a in range(2)) + 1.0
+    ctx.note_case("Beam:inclined:%s:%s:%s" % (c["mesh"]["end"][:2], c["unknowns"], c.get("vkind")))
+    bad = abs(R[0] - float(Rex["x"])) > TOL * scale or abs(R[1] - float(Rex["y"])) > TOL * scale or abs(Mzi - float(Mz)) > TOL * scale * lever
+    if bad:
+        key = "beam-lineLoad-EB-inclined:add_lineLoad"
+        if key not in seen:
+            seen.add(key)
+            exp = {"R": [float(Rex["x"]), float(Rex["y"])], "Mz": float(Mz), "center": cc, "scale": scale, "lever": lever}
+            ctx.violation(key, "Euler-Bernoulli beam from (0,0) to %s, line load on %s (%s, global components): global force resultant %s, exact %s; z-moment %.12g, exact %.12g — Simulations/_beam.add_lineLoad uses the LOCAL rows of N_e_pg as global components"
+                          % (c["mesh"]["end"][:2], c["unknowns"], c.get("vkind"), R, exp["R"], Mzi, float(Mz)),
+                          {"replay_py": REPLAY_INCLINED % dict(case=c, expected=exp), "case": c, "expected": exp})
+
+
 def coq_select_cases(cases, results, budget=None, rng=None):
     def L(xs):
         return "[" + "; ".join(str(int(x)) for x in xs) + "]"
@@ -756,6 +819,9 @@ def run(ctx):
             continue
         if c.get("closed_pressure"):
             judge_closed_pressure(ctx, c, r, seen)
+            continue
+        if c.get("inclined_beam"):
+            judge_inclined_beam(ctx, c, r, seen)
             continue
         center = [F(ctx.rng.randint(-8, 8), 4) for _ in range(3)]
         try:
